@@ -1,6 +1,8 @@
 import FV.Props.Catalog
 import FV.IoAsync
-/-! # C08 — async IO (first instalment: the sender is a stuttering refinement of the blocking one)
+import FV.IoAsyncRecv
+import FV.IoArb
+/-! # C08 — async IO: both futures are stuttering refinements of the blocking loops; the pipe between them is a FIFO
 
 The executor and the waker are not in the model. The harness drives the real futures with a counting waker: a task is
 polled again only when it has been woken, so a `Pending` returned without the pipe having registered the waker shows
@@ -15,6 +17,35 @@ suspension, and completion implies that `poll_flush` returned `Ready(Ok)` after 
 theorem C08_sender_refines_blocking (msg : Bytes) (n : Nat) (evs : List AEv) (st : AState) (h : evs.length ≤ n) :
     arun msg evs st = brun msg evs st :=
   arun_eq_brun msg n evs st h
+
+/-- **C08 (receiver).** The async `recv` — suspended by `poll_read` any number of times at any point, re-polled, `poll_read`
+starting over (room check, compaction, `OutOfMemory`, then the pipe) — reaches, for every message type, buffer state and stream,
+the same outcome with the same buffer, stream position and remaining script as the blocking `recv` on the script with the
+`Pending`s removed, whenever that script is long enough for the blocking `recv` to reach an outcome at all. Together with
+`C07_receiver_delivers` (every chunking) this gives the delivery of the message sequence under every pattern of `Pending`. -/
+theorem C08_receiver_refines_blocking (d : Dict) (evs : List AREv) (b : RBuf) (rest : Bytes) :
+    Agrees eraseP (arecv d false evs b rest) (recv d (eraseP evs) b rest) :=
+  (arecv_refines d evs.length evs b rest (Nat.le_refl _)).1
+
+/-- **C08 (the pair).** Over a bounded in-memory pipe of any capacity ≥ 0, for every interleaving of polls of the two tasks and
+every chunk limit: received bytes, then bytes in the pipe, then bytes not yet sent are always the stream; the pipe never
+exceeds its capacity. (Each task sees the pipe as a script of outcomes with `Pending`; the two theorems above and C07 quantify
+over all such scripts. That a `Pending` is always followed by a wake-up is a property of the executor, which the harness
+exercises with a counting waker.) -/
+theorem C08_pipe_fifo (cap : Nat) (sched : List Sched) (stream : Bytes) :
+    let fin := sched.foldl (pipeStep cap) ⟨stream, [], []⟩
+    fin.got ++ fin.q ++ fin.toSend = stream ∧ fin.q.length ≤ cap := by
+  have := pipe_fifo cap sched ⟨stream, [], []⟩
+  exact ⟨by simpa using this.1, this.2 (Nat.zero_le _)⟩
+
+/-- non-vacuity: `FlatVec<u8,u16>` messages; the blocking `recv` on the erased script reaches an outcome (a message), so the
+theorem applies: the async `recv` suspended twice in its second read returns the same message -/
+example : (arecv (Ty.vec u8 L16).dict false [.deliver 2, .pending, .pending, .deliver 2] ⟨0, 8, 0, []⟩ [1,0,7,0, 9]).1 = .msg [1,0,7,0] := by
+  have hb : (recv (Ty.vec u8 L16).dict (eraseP [.deliver 2, .pending, .pending, .deliver 2]) ⟨0, 8, 0, []⟩ [1,0,7,0, 9]).1 = .msg [1,0,7,0] := by
+    decide
+  rcases C08_receiver_refines_blocking (Ty.vec u8 L16).dict [.deliver 2, .pending, .pending, .deliver 2] ⟨0, 8, 0, []⟩ [1,0,7,0, 9] with h | h
+  · rw [hb] at h; cases h
+  · rw [h.1, hb]
 
 /-- non-vacuity: one poll hands over two bytes and is suspended by the pipe; the position is kept -/
 example : apoll [1,2,3] [.ok 2, .pending, .ok 9] ⟨0, [], false⟩ = (.pending, ⟨2, [1,2], false⟩, [.ok 9]) := by decide
